@@ -509,6 +509,80 @@ example : ∃ prog, generate ex2G 3 ex2E = .ok prog ∧
   refine ⟨kvs, h1, ?_, h3 "a" 1 (by simp), h3 "b" 2 (by simp)⟩
   rw [h2]; rfl
 
+/-! a third instance: the slice that used to be mis-synthesised, `x[-10::-1]` on length 4
+    (normalised: start = stop = -1, step = -1; written `x[-5::-1]`) -/
+def ex4G : PGraph := #[⟨.placeholder "x", [some 4]⟩, ⟨.index 0 [.slice ⟨-1, -1, -1⟩], [some 0]⟩]
+def ex4A : Arr Val := ⟨[4], fun i => .i (i.headD 0)⟩
+def ex4Inp : Nat → Option (Arr Val) := fun i => if i = 0 then some ex4A else none
+def ex4E : List String := ["x", "_pt_np", "np", "_pt_kernel"]
+
+theorem ex4Gen : ∃ prog, generate ex4G 1 ex4E = .ok prog ∧ prog.memo = [(1, "_pt_tmp"), (0, "x")] ∧
+    prog.body.map PyStmt.print = ["_pt_tmp = x[-5::-1,]", "return _pt_tmp"] := ⟨_, rfl, rfl, by decide⟩
+
+theorem ex4G_out (i : Nat) : ex4G.get (i + 2) = { node := .other "out-of-range", shape := [] } := by
+  simp [PGraph.get, ex4G]
+
+theorem ex4Hyp : Hyp ex4G ex4Inp ex4E := by
+  refine ⟨?_, ?_, ?_, ?_, by decide, ?_⟩
+  · intro i c hc
+    match i with
+    | 0 => simp [kidsOf, PGraph.get, ex4G] at hc
+    | 1 => simp [kidsOf, PGraph.get, ex4G] at hc; omega
+    | i + 2 => simp [kidsOf, ex4G_out] at hc
+  · intro c a h
+    match c with
+    | 0 =>
+      have : (den ex4G ex4Inp 0).map (·.shape.length) = some 1 := by rfl
+      rw [h] at this; simpa [PGraph.get, ex4G] using this
+    | 1 =>
+      have : (den ex4G ex4Inp 1).map (·.shape.length) = some 1 := by rfl
+      rw [h] at this; simpa [PGraph.get, ex4G] using this
+    | c + 2 => simp [den, denote, denoteStep, ex4G_out] at h
+  · intro c a s h hs
+    match c with
+    | 0 =>
+      have h1 : (den ex4G ex4Inp 0).map (·.shape) = some [4] := by rfl
+      have h2 : staticShape (ex4G.get 0).shape = some [4] := by rfl
+      rw [h] at h1; rw [h2] at hs
+      simp only [Option.map_some, Option.some.injEq] at h1 hs
+      rw [h1, hs]
+    | 1 =>
+      have h1 : (den ex4G ex4Inp 1).map (·.shape) = some [0] := by rfl
+      have h2 : staticShape (ex4G.get 1).shape = some [0] := by rfl
+      rw [h] at h1; rw [h2] at hs
+      simp only [Option.map_some, Option.some.injEq] at h1 hs
+      rw [h1, hs]
+    | c + 2 => simp [den, denote, denoteStep, ex4G_out] at h
+  · intro j hs _
+    match j with
+    | 0 => rfl
+    | 1 => rfl
+    | j + 2 => simp [suppNode, ex4G_out] at hs
+  · intro j name hp
+    match j with
+    | 0 =>
+      simp [plan, PGraph.get, ex4G] at hp
+      subst hp; decide
+    | 1 =>
+      have : ∃ pre kids mk, plan ex4G 1 = .ok (.stmt pre kids mk) := ⟨_, _, _, rfl⟩
+      obtain ⟨_, _, _, h⟩ := this
+      rw [h] at hp; cases hp
+    | j + 2 => simp [plan, ex4G_out] at hp
+
+example : ∃ prog, generate ex4G 1 ex4E = .ok prog ∧
+    ∃ v, denV ex4G ex4Inp 1 = some v ∧ runBody [("x", .arr ex4A)] prog.body = some v := by
+  obtain ⟨prog, hgen, hmemo, _⟩ := ex4Gen
+  refine ⟨prog, hgen, pygen_sound ex4G 1 ex4E ex4Inp [("x", .arr ex4A)] prog hgen (by rfl) ex4Hyp
+    ⟨by decide, by decide, by decide, by decide⟩ ?_⟩
+  intro j n nm hm hp
+  rw [hmemo] at hm
+  simp only [List.mem_cons, Prod.mk.injEq, List.not_mem_nil, or_false] at hm
+  rcases hm with ⟨rfl, rfl⟩ | ⟨rfl, rfl⟩
+  · have : ∃ pre kids mk, plan ex4G 1 = .ok (.stmt pre kids mk) := ⟨_, _, _, rfl⟩
+    obtain ⟨_, _, _, h⟩ := this
+    rw [h] at hp; cases hp
+  · simp [PEnv.get?, ex4Inp]
+
 /-! non-vacuity of `pygen_refuses`: a size parameter under a roll -/
 def ex3G : PGraph := #[⟨.sizeParam "n", []⟩, ⟨.roll 0 1 0, [some 2]⟩]
 example : Bad ex3G 1 := .stmt (i := 1) (c := 0) rfl (by simp) (.here (w := "NotImplementedError(SizeParam)") rfl)
